@@ -33,6 +33,10 @@ abbrev Pt := Key × P3
 /-- one (decoy, reference) coordinate pair handed to the kernel -/
 abbrev Pair := Pt × Pt
 
+instance instDecEqKey : DecidableEq Key := inferInstance
+instance instDecEqPt : DecidableEq Pt := inferInstance
+instance instDecEqPair : DecidableEq Pair := inferInstance
+
 def keyOf (a : Atom) : Key := (a.chainID, a.resSeq, a.name)
 def posOf (a : Atom) : P3 := ⟨a.x, a.y, a.z⟩
 def ptOf (a : Atom) : Pt := (keyOf a, posOf a)
